@@ -34,7 +34,7 @@ def run(ctx):
     quick = ctx.tier == "quick"
     V.leg_m(ctx, "AuthBackchannel", "AuthBackchannel.MC.cfg")
     cells, n = V.leg_g(ctx, "AuthBackchannelGen", "AuthBackchannel.Gen.cfg", "CELL", "cells.jsonl")
-    reps = 1 if quick else 8
+    reps = 1 if quick else 24
     obs = os.path.join(ctx.scratch, "obs.ndjson")
     # the table is small: every cell is executed in both tiers
     s = V.harness(ctx, ["ab-cells", "-in", cells, "-out", obs, "-seed", ctx.seed, "-sample", 0, "-reps", reps, "-workers", V.NCPU])
